@@ -2,7 +2,6 @@ import PyecoreModel.Lemmas.XmiValues
 import PyecoreModel.Lemmas.XmiDoc
 import PyecoreModel.Lemmas.XmiDocRefs
 import PyecoreModel.Properties.C11
-import PyecoreModel.Properties.C17
 /-!
 # C08 — XMI save then load reproduces the model  (**partial: layer theorems; the composition is decided by the check**)
 
